@@ -280,6 +280,8 @@ Definition check_conc (n : nat) (st_ early runs endedb : list nat)
   if Nat.eqb inconclusive 1 then VOk else
   vjoin (check_that (forallb (fun r => Nat.leb r 1) runs) (VPropFail 2))
  (vjoin (check_that (negb (mem 4 st_)) (VPropFail 1))
+ (vjoin (* the process died while tasks were running (child process): a panicking task got past run()'s recover *)
+        (check_that (negb (mem 9 st_)) (VPropFail 4))
  (vjoin (* Execute returns: no call is still parked on the queue once Shutdown has returned *)
         (check_that (negb (Nat.eqb shutret 1) || negb (mem 0 st_)) (VPropFail 1))
  (vjoin (* no call ends in a runtime panic (send on closed channel, WaitGroup misuse ...) *)
@@ -296,7 +298,7 @@ Definition check_conc (n : nat) (st_ early runs endedb : list nat)
  (vjoin (* one worker: each submitter's tasks start in the order it submitted them *)
         (check_that (negb (Nat.eqb n 1) || Nat.eqb orderok 1) (VPropFail 3))
         (* Shutdown of a running executor parked for good (all goroutines parked, tasks cannot block) *)
-        (check_that (negb (Nat.eqb shutpending 1)) (VPropFail 7)))))))))).
+        (check_that (negb (Nat.eqb shutpending 1)) (VPropFail 7))))))))))).
 
 Definition check (c : sx) : verdict :=
   match c with
